@@ -269,9 +269,33 @@ impl Gw {
             }
             return m;
         }
+        // the same bytes split differently between source chain and message id: (chain, id) pairs whose
+        // concatenation — plain, or with a common separator — coincides with that of an existing message
+        if !self.msgs.is_empty() && rng.chance(1, 6) {
+            let m0 = rng.pick(&self.msgs).clone();
+            let sep: Vec<u8> = rng.pick(&[b"_".to_vec(), b"_".to_vec(), vec![], b"-".to_vec(), b":".to_vec()]).clone();
+            let full = cat(&[&m0.chain, &sep, &m0.id]);
+            let mut cuts = vec![];
+            for p in 0..=full.len().saturating_sub(sep.len()) {
+                if full[p..p + sep.len()] == sep[..] && p != m0.chain.len() {
+                    cuts.push(p);
+                }
+            }
+            if !cuts.is_empty() {
+                let p = *rng.pick(&cuts);
+                let mut m = m0.clone();
+                m.chain = full[..p].to_vec();
+                m.id = full[p + sep.len()..].to_vec();
+                return m;
+            }
+        }
         Msg {
-            chain: rng.pick(&[b"ethereum".to_vec(), b"avalanche".to_vec(), b"a".to_vec(), vec![]]).clone(),
-            id: format!("0x{:x}-{}", rng.below(6), rng.below(3)).into_bytes(),
+            chain: rng.pick(&[b"ethereum".to_vec(), b"avalanche".to_vec(), b"a".to_vec(), vec![], b"avalanche_fuji".to_vec(), b"eth-2".to_vec()]).clone(),
+            id: if rng.chance(1, 4) {
+                format!("{}_0x{:x}-{}", rng.pick(&["fuji", "x", "0"]), rng.below(6), rng.below(3)).into_bytes()
+            } else {
+                format!("0x{:x}-{}", rng.below(6), rng.below(3)).into_bytes()
+            },
             src: rng.pick(&[b"0xSender".to_vec(), b"src2".to_vec(), vec![]]).clone(),
             contract: rng.pick(dests).clone(),
             ph: if rng.chance(1, 2) { keccak(&[rng.below(4) as u8]) } else { rng.bytes(32) },
